@@ -176,8 +176,8 @@ func init() {
 		"	msg := asyncMessage[T]{ctx: ctx, val: v}\n	for h := range a.handlers {\n		select {\n		case h.ch <- msg:\n		default:\n", "	msg := asyncMessage[T]{ctx: ctx, val: v}\n	for h := range a.handlers {\n		select {\n		case h.ch <- msg:\n		default:\n			return\n", "C13.R6.fanout")
 	mut("C06", "deletes may name any leaseholder for a key that already has one", "aspen/internal/kv/lease.go",
 		"		} else if lh != op.Leaseholder {", "		} else if lh != op.Leaseholder && op.Variant == change.VariantSet {", "C06.R6.lease")
-	mut("C11", "a juror forgets earlier approvals of keys it has since seen join", "aspen/internal/cluster/pledge/pledge.go",
-		"	if slices.Contains(j.approvals, req.Key) {", "	if slices.Contains(j.approvals, req.Key) && req.Key > highestNodeID(j.Candidates()) {", "C11.R7.verdict")
+	mut("C11", "a juror with a single approval on record approves that key again", "aspen/internal/cluster/pledge/pledge.go",
+		"	if slices.Contains(j.approvals, req.Key) {", "	if slices.Contains(j.approvals, req.Key) && len(j.approvals) > 1 {", "C11.R7.verdict")
 	mut("C11", "out-of-range keys are only rejected when the juror has approvals on record", "aspen/internal/cluster/pledge/pledge.go",
 		"	if req.Key <= highestNodeID(j.Candidates()) {", "	if req.Key <= highestNodeID(j.Candidates()) && len(j.approvals) > 0 {", "C11.R7.verdict")
 	mut("C12", "a failed sync is taken for an empty answer when no digests were sent", "aspen/internal/cluster/gossip/gossip.go",
